@@ -182,3 +182,17 @@ Proof.
   unfold roundtrip_ssa_b. destruct (from_ssa_path N path) as [[|t' [|? ?]]|]; try discriminate.
   intros H. exists t'. auto.
 Qed.
+
+Lemma list_eqb_sound {A} (e : A -> A -> bool) : (forall x y, e x y = true -> x = y) ->
+  forall l1 l2, list_eqb e l1 l2 = true -> l1 = l2.
+Proof.
+  intros He. induction l1 as [|x l1 IH]; intros [|y l2]; cbn; try discriminate; [reflexivity|].
+  intros H. apply andb_prop in H. destruct H as [H1 H2]. f_equal; [apply He, H1|apply IH, H2].
+Qed.
+
+Lemma inverse_ok_b_sound path N : inverse_ok_b path N = true ->
+  ssa_to_linear (linear_to_ssa path N) N = map sort_asc path.
+Proof.
+  unfold inverse_ok_b, eqb, Eqb_list. apply list_eqb_sound.
+  apply list_eqb_sound. intros x y H. apply Nat.eqb_eq, H.
+Qed.
